@@ -142,6 +142,10 @@ VARIANTS = [
     dict(radii=[2], kernel="flat", orient="after", normwin=True, kargs={"offset": 1}),
     dict(radii=[3], kernel="harmonic", orient="directional", normwin=False, kargs={"offset": 1, "normalize": True}),
     dict(radii=[2], kernel="geometric", orient="directional", normwin=False, kargs={"power": 0.5}),
+    # offsets larger than 1 (and larger than windows clipped by the sequence ends)
+    dict(radii=[3], kernel="flat", orient="directional", normwin=False, kargs={"offset": 2}),
+    dict(radii=[3], kernel="geometric", orient="after", normwin=True, kargs={"offset": 3, "normalize": True}),
+    dict(radii=[2], kernel="harmonic", orient="before", normwin=False, kargs={"offset": 2}),
     dict(radii=[1, 2], kernel="flat", orient=["after", "before"], normwin=False, mix=[2.0, 1.0]),
     dict(radii=[1, 2], kernel="harmonic", orient=["directional", "after"], normwin=True, mix=[2.0, 1.0]),
     dict(radii=[2, 1], kernel="geometric", orient=["before", "directional"], normwin=True),
